@@ -572,11 +572,14 @@ class ArrayInterp:
                 return None
         if isinstance(e, ast.Call) and isinstance(e.func, ast.Name) and e.func.id in ('tuple', 'list') and len(e.args) == 1 and not e.keywords:
             return self._const_iter(e.args[0])
-        if isinstance(e, ast.Call) and (self.qualify(e.func) or '').endswith('itertools.product') and not e.keywords:
+        if isinstance(e, ast.Call) and (self.qualify(e.func) or '').endswith('itertools.product') and all(k.arg == 'repeat' for k in e.keywords):
             parts = [self._const_iter(a) for a in e.args]
             if any(p is None for p in parts):
                 return None
-            return list(itertools.product(*parts))
+            repeat = const_value(e.keywords[0].value, None) if e.keywords else 1
+            if not isinstance(repeat, int) or isinstance(repeat, bool) or not 1 <= repeat <= 4:
+                return None
+            return list(itertools.product(*parts, repeat=repeat))
         if isinstance(e, ast.Call) and dotted(e.func) == 'range' and all(isinstance(const_value(a, None), int) for a in e.args):
             return list(range(*[const_value(a) for a in e.args]))
         if isinstance(e, ast.Name):
